@@ -761,6 +761,7 @@ macro_rules! impl_realish {
             fn to_degrees(self) -> $T { self * <$T as RealPrim>::c(180, 1) / <$T as FloatConst>::PI() }
             fn to_radians(self) -> $T { self * <$T as FloatConst>::PI() / <$T as RealPrim>::c(180, 1) }
         }
+        impl vek::ops::ColorComponent for $T { fn full() -> $T { <$T as RealPrim>::c(1, 1) } }
         impl vek::ops::MulAdd<$T, $T> for $T { type Output = $T; fn mul_add(self, a: $T, b: $T) -> $T { self * a + b } }
         // approx 0.5 float semantics, transcribed (a trusted stub, listed in the evidence)
         impl approx::AbsDiffEq for $T {
@@ -827,6 +828,7 @@ pub trait Sx:
     + approx::UlpsEq
     + From<u16>
     + From<u8>
+    + vek::ops::ColorComponent
     + std::fmt::Debug
     + std::fmt::Display
     + Default
